@@ -4,13 +4,30 @@ PROPS = ['C%02d' % i for i in range(1, 21)]
 
 
 # ---- handlers for collaborator idioms (G14) ---------------------------------------------
+def _h_map_call(em, n, args, dst):
+    # integrand.map()(channel, rn, coords, enabled, densities, action) / map_(...) -> vp_map_call(...)
+    al = [em.arg(a, None) for a in args[1:]]
+    return 'vp_map_call(%s)' % ', '.join(al)
+
+
+def _h_selector_call(em, n, args, dst):
+    return 'discrete_distribution_call(%s, %s)' % (em.arg(args[0], None), em.arg(args[1], None))
+
+
+def _h_make_accumulator(em, n, args, dst):
+    # make_accumulator(integrand) == accumulator<T, I::has_distributions>(integrand.parameters())  (accumulator.hpp:316-324)
+    rti = em.tm.info(n['type']['qualType'])
+    return '%s_ctor1(%s, integrand_parameters((const struct integrand *)%s))' % (rti['ctype'], dst, em.arg(args[0], None))
+
+
 def _h_integrand_call(em, n, args, dst):
     # integrand.function()(point[, projector])  ->  vp_integrand_call(&point[, &projector])
     al = [em.arg(a, None) for a in args[1:]]
     return 'vp_integrand_call%s(%s)' % ('_proj' if len(al) == 2 else '', ', '.join(al))
 
 
-_ACC_OPTS = dict(operator_calls={('vpinst_Fn', 'operator()'): _h_integrand_call})
+_ACC_OPTS = dict(operator_calls={('vpinst_Fn', 'operator()'): _h_integrand_call, ('vpinst_Map', 'operator()'): _h_map_call,
+                                  ('discrete_distribution', 'operator()'): _h_selector_call})
 
 RECIPES = {
     'accumulate': dict(name='accumulate'),
@@ -41,6 +58,20 @@ RECIPES = {
     'create_result': dict(name='create_result'),
 }
 
+_CAST_INVOKE = {'accumulator_nodist_invoke': {1: 'struct integrand *', 2: 'const struct mc_point *'}}
+_IT_OPTS = dict(_ACC_OPTS, cast_args=_CAST_INVOKE, free_calls={'make_accumulator': _h_make_accumulator})
+RECIPES.update({
+    'accumulator_nodist_ctor1': dict(name='accumulator', cls='accumulator', cls_targs=['double', '0'], self='accumulator_nodist', ctor=True),
+    'integrand_dimensions': dict(unit='drivers', name='dimensions', cls='integrand', self='integrand'),
+    'integrand_parameters': dict(unit='drivers', name='parameters', cls='integrand', self='integrand'),
+    'mc_point_ctor1': dict(name='mc_point', cls='mc_point', self='mc_point', ctor=True, sel='std::vector', opts=dict(default_args=1)),
+    'mc_point_ctor2': dict(name='mc_point', cls='mc_point', self='mc_point', ctor=True, sel='std::vector'),
+    'plain_result_ctor6': dict(name='plain_result', cls='plain_result', self='plain_result', ctor=True, sel='std::size_t, std::size_t, std::size_t'),
+    'plain_iteration': dict(unit='drivers', name='plain_iteration', opts=_IT_OPTS),
+    'vegas_iteration': dict(unit='drivers', name='vegas_iteration', opts=_IT_OPTS),
+    'multi_channel_iteration': dict(unit='drivers', name='multi_channel_iteration', opts=_IT_OPTS),
+})
+
 # ---- fragments: single expressions inside the MPI drivers -----------------------------------
 _SUBP = [('size_t', 'calls'), ('int', 'rank'), ('int', 'world')]
 _DISP = [('size_t', 'calls'), ('int', 'rank'), ('int', 'world'), ('size_t', 'usage')]
@@ -53,7 +84,12 @@ for _d in ('mpi_plain', 'mpi_vegas', 'mpi_multi_channel'):
 
 # ---- B1 jobs ------------------------------------------------------------------------------------
 _GHOSTS = ('size_t vp_invocations, vp_weight_calls, vp_acc_calls; T vp_last_f, vp_last_w, vp_last_acc; '
-           'T vp_w_s0, vp_w_s1, vp_w_s2; size_t vp_w_nz, vp_w_fc;')
+           'T vp_w_s0, vp_w_s1, vp_w_s2; size_t vp_w_nz, vp_w_fc; size_t vp_draws; T vp_last_u; size_t vp_g_nz, vp_g_fc, vp_g_exp;')
+_ST_RES = [dict(cls='mc_point'), dict(cls='distribution_parameters', vec=True), dict(cls='mc_result', vec=True), dict(cls='distribution_result', vec=True),
+           dict(cls='plain_result'), dict(cls='accumulator', cls_targs=['double', '0'], cname='accumulator_nodist'),
+           dict(cname='vpinst_Fn', opaque=True), dict(unit='drivers', cls='integrand', cname='integrand')]
+_F_IT = ['accumulator_nodist_ctor1', 'integrand_dimensions', 'integrand_parameters', 'mc_point_ctor1', 'accumulator_nodist_invoke',
+         'accumulator_nodist_result', 'accumulate', 'plain_result_ctor6', 'mc_result_ctor5']
 _ST_ACC = [dict(cls='mc_point'), dict(cls='accumulator', cls_targs=['double', '0'], cname='accumulator_nodist')]
 _ST_DIST = [dict(cls='mc_point'), dict(cls='distribution_parameters', vec=True),
             dict(cls='accumulator', cls_targs=['double', '1'], cname='accumulator_dist'), dict(cls='projector'),
@@ -72,6 +108,14 @@ JOBS = [
          structs=_ST_DIST, preludes=['opaque.h'], late_preludes=['stubs.h'], globals=_GHOSTS,
          defines=['VP_WITH_PROJECTOR', 'VP_NMAX=65536'], props=['C02', 'C06', 'C17', 'C01'], thorough_reals=['float'],
          trusted=[_T_USER, 'the integrand may change only bin slots through the projector (proved for add_to_1d/2d_distribution in jobs dist1d/dist2d)']),
+    dict(name='result_nodist', functions=['accumulator_nodist_result', 'plain_result_ctor6', 'mc_result_ctor5'], entry='h_accumulator_nodist_result',
+         enforce='accumulator_nodist_result', structs=_ST_RES, preludes=['opaque.h'], late_preludes=['stubs.h'], globals=_GHOSTS,
+         props=['C02']),
+    dict(name='plain_iteration', functions=['plain_iteration'] + _F_IT, entry='h_plain_iteration', enforce='plain_iteration',
+         replace=['accumulator_nodist_invoke', 'accumulator_nodist_result'], af=['accumulator_nodist_invoke'],
+         structs=_ST_RES, preludes=['opaque.h'], late_preludes=['stubs.h'], globals=_GHOSTS,
+         defines=['VP_DMAX=1048576', 'VP_CALLSMAX=1099511627776', 'VP_GEXPMAX=1152921504606846976'], props=['C02', 'C10', 'C17'], trusted=[_T_USER,
+         'std::generate_canonical: assumed contract (value in [0,1], fixed raw draws per number)']),
     dict(name='refine_weights', functions=['multi_channel_refine_weights'], entry='h_multi_channel_refine_weights',
          enforce='multi_channel_refine_weights', replace=['vp_pow'], real='double', defines=['VP_NMAX=4096'],
          props=[]),
